@@ -271,6 +271,8 @@ pub struct Case {
     /// a thread went through a lock that the model (and the real mutex state) says is held
     pub lock_fail: Option<String>,
     pub probes: usize,
+    /// how long a probed thread is given to come back through a held lock
+    pub probe_wait: Duration,
     pub stop_called: bool,
     pub eos_seen: bool,
     pub timeout: bool,
@@ -316,7 +318,7 @@ impl Case {
             (sh, Some(push_lock))
         };
         Case { init, sh, prods: (0..MAX_PROD).map(|_| None).collect(), cons: None, stop: None, handle,
-               clone_target: vec![0; MAX_PROD], push_lock, recv_dropped: false, eos_early: None, holder_push: None, holder_pop: None, implicit: vec![], lock_fail: None, probes: 0, stop_called: false, eos_seen: false, timeout: false }
+               clone_target: vec![0; MAX_PROD], push_lock, recv_dropped: false, eos_early: None, holder_push: None, holder_pop: None, implicit: vec![], lock_fail: None, probes: 0, probe_wait: PROBE_WAIT, stop_called: false, eos_seen: false, timeout: false }
     }
 
     fn worker(&mut self, t: Tid) -> &mut Worker {
@@ -428,7 +430,8 @@ impl Case {
         let p = match self.state(t) { WState::Parked(p) => p, _ => return "B".into() };
         self.probes += 1;
         let _ = self.worker(t).tx.send(Cmd::Step);
-        match self.worker(t).rx.recv_timeout(PROBE_WAIT) {
+        let wait = self.probe_wait;
+        match self.worker(t).rx.recv_timeout(wait) {
             Err(_) => { self.worker(t).state = WState::InLock(p); "B".into() }
             Ok(ev) => {
                 let tok = match ev {
